@@ -150,8 +150,29 @@ def main():
     ttie = None
     if prop in props.TABLE_DEFS and not args.replay:
         ttie = props.run_tables(prop)
+    # tie by translation of the decoders / encoders / validity checks (C07-C12): Generated/Decoders.lean is rewritten from
+    # the source text and Props/SrcDec.lean is re-checked
+    dtie = None
+    if prop in props.DEC_RELEVANT and not args.replay:
+        dtie = props.run_decoders(prop)
     po = proof_obligations(spec)
     po["broken"] = broken_ties + po["broken"]
+    if dtie and dtie["status"] == "proved":
+        listed, err = audit([props.DEC_MODULE])
+        by = {d.get("theorem"): d for d in listed if "theorem" in d}
+        for t in props.DEC_THEOREMS:
+            full = props.DEC_MODULE + "." + t
+            d = by.get(full)
+            po["obligations"] += 1
+            if d is None:
+                po["broken"].append("theorem missing: " + full)
+                continue
+            ax = set(d.get("axioms", []))
+            po["axioms"][full] = sorted(ax)
+            if ax <= ALLOWED_AXIOMS:
+                po["discharged"] += 1
+            else:
+                po["broken"].append("theorem %s depends on %s" % (full, sorted(ax - ALLOWED_AXIOMS)))
     if ttie and ttie["status"] == "proved" and prop == "C20":
         listed, err = audit([props.TAB_MODULE])
         by = {d.get("theorem"): d for d in listed if "theorem" in d}
@@ -186,7 +207,8 @@ def main():
                 po["broken"].append("theorem %s depends on %s" % (full, sorted(ax - ALLOWED_AXIOMS)))
     tie_lost = bool(ftie and ftie["status"] == "lost" and ftie["relevant"])
     tab_lost = bool(ttie and ttie["status"] == "lost" and ttie["relevant"])
-    if (tie_lost or tab_lost) and tier == "quick":
+    dec_lost = bool(dtie and dtie["status"] == "lost" and dtie["relevant"])
+    if (tie_lost or tab_lost or dec_lost) and tier == "quick":
         tier_run = "escalated"
     else:
         tier_run = tier
@@ -224,6 +246,10 @@ def main():
             po["broken"].append(msg)
         else:
             print("NOTE: " + msg + "; this property's domain is enumerated by the correspondence, which stands")
+    if dec_lost:
+        po["broken"].append("tie by translation lost: the source text of %s is understood by go/decoders / go/tables but is no longer provably "
+                            "the model's (Proofs/Decoders.lean or Proofs/Tables.lean does not check: %s); the search was widened (%s streams, "
+                            "%d evaluations)" % (", ".join(dtie["relevant"][:12]), dtie["note"][:400], tier_run, outcome.evaluations))
     known = core.load_known()
     verdict = props.conclude(prop, spec, po, outcome, known)
 
@@ -266,6 +292,18 @@ def main():
                             "lost-elsewhere": "an equality about a function this property is not about no longer checks; those it is about do",
                             "lost": "the source is understood but no longer provably the model; search widened"}[ttie["status"]]}
                 if ttie else "not used by this property"),
+            "decoder_translation": ({
+                "status": dtie["status"], "translator": dtie["translator"], "functions_translated": dtie.get("functions", 0),
+                "definitions_differing_from_pinned_tree": dtie["changed"][:40],
+                "functions_no_longer_provably_the_model": dtie.get("failed", [])[:40],
+                "functions_outside_the_translators_subset": dtie.get("not_understood", [])[:60],
+                "of_which_this_property_is_about": dtie["relevant"][:40], "translator_output": dtie["note"][:600],
+                "module": props.DEC_MODULE,
+                "meaning": {"proved": "every function this property is about (constructors, Decode, decodeOne, GetError, Encode, String, IsEmpty, GetVersion, the per-metric parsers and printers) as translated from the source text returns, for every object and every byte string, what the model's function returns, without a panic: this property's theorems are about the source text",
+                            "not-understood": "a function this property is about is outside the translators' subset (it carries the reference text, nothing is claimed about it); the tie of this run is the correspondence alone",
+                            "lost-elsewhere": "an equality about a function this property is not about no longer checks; those it is about do",
+                            "lost": "the source is understood but no longer provably the model; search widened"}[dtie["status"]]}
+                if dtie else "not used by this property"),
             "names_tables_source": ("go/extract (source translator)" if props.NAMES_SOURCE == "ast" else
                                     "behavioural probe of the names functions on -130..130 (fallback; claims for integers outside that "
                                     "range are not covered in this run): " + props.NAMES_NOTE[:300]) if getattr(spec, "needs_extract", False) else "not used",
